@@ -81,13 +81,13 @@ def render_nexus(doc):
     L = ["#NEXUS", "", "BEGIN TAXA;", "    DIMENSIONS NTAX=%d;" % len(taxa), "    TAXLABELS %s;" % " ".join(taxa), "END;", ""]
     for b in doc["blocks"]:
         if b["kind"] == "chars":
-            ncol = len(b["rows"][0]) if b["rows"] else 0
+            ncol = len(b["rows"][0]["seq"]) if b["rows"] else 0
             L += ["BEGIN CHARACTERS;"]
             if b["title"]:
                 L += ["    TITLE %s;" % b["title"]]
             L += ["    DIMENSIONS NCHAR=%d;" % ncol, "    FORMAT DATATYPE=DNA GAP=- MISSING=?;", "    MATRIX"]
-            for lab, row in zip(taxa, b["rows"]):
-                L += ["        %s    %s" % (lab, row)]
+            for row in b["rows"]:
+                L += ["        %s    %s" % (row["lab"], row["seq"])]
             L += ["    ;", "END;", ""]
             continue
         L += ["BEGIN TREES;"]
@@ -146,7 +146,7 @@ def render_nexml(doc):
     for b in doc["blocks"]:
         if b["kind"] == "chars":
             nc += 1
-            ncol = len(b["rows"][0]) if b["rows"] else 0
+            ncol = len(b["rows"][0]["seq"]) if b["rows"] else 0
             L += ['    <characters id="chars%d"%s otus="tax1" xsi:type="nex:DnaSeqs">' % (nc, (' label="%s"' % xml_esc(b["title"])) if b["title"] else ""),
                   '        <format>', '            <states id="st%d">' % nc]
             for sym, sid in (("A", "sA"), ("C", "sC"), ("G", "sG"), ("T", "sT"), ("-", "sgap")):
@@ -159,7 +159,7 @@ def render_nexml(doc):
                 L += ['            <char id="ch%d_%d" states="st%d" />' % (nc, k + 1, nc)]
             L += ['        </format>', '        <matrix>']
             for j, row in enumerate(b["rows"]):
-                L += ['            <row id="row%d_%d" otu="o%d"><seq>%s</seq></row>' % (nc, j + 1, j + 1, row)]
+                L += ['            <row id="row%d_%d" otu="o%d"><seq>%s</seq></row>' % (nc, j + 1, taxa.index(row["lab"]) + 1, row["seq"])]
             L += ['        </matrix>', '    </characters>']
             continue
         nb += 1
@@ -347,6 +347,6 @@ def random_doc(rng):
     nchar = rng.choice([0, 0, 1, 2])
     for k in range(nchar):
         ncol = rng.randint(2, 6)
-        rows = ["".join(rng.choice("ACGT-?") for _ in range(ncol)) for _ in taxa]
+        rows = [{"lab": lab, "seq": "".join(rng.choice("ACGT-?") for _ in range(ncol))} for lab in taxa]
         blocks.insert(rng.randint(0, len(blocks)), {"kind": "chars", "title": "cm%d" % (k + 1), "rows": rows})
     return {"taxa": taxa, "blocks": blocks}
